@@ -15,7 +15,7 @@ from ..symx import Expander, TupleV, ListV
 from ..ncf import M
 from .. import ncf, anf
 from ..anf import R, Unsupported
-from .common import struct_ob, guard, gradient_lists_in_order
+from .common import struct_ob, guard, gradient_lists_in_order, U
 from ..report import Ob, AnalysisError
 
 REL = "inference/gp/inversion.py"
@@ -40,7 +40,7 @@ def make(prog, ci):
     ex.ctor_methods = ("__init__",)
 
     def hook(e, node, env):
-        f = ast.unparse(node.func)
+        f = U(node.func)
         if f == "self.cov.build_covariance":
             return M.atom("K", 2, True)
         if f == "self.mean.build_mean":
@@ -156,11 +156,11 @@ def run(prog, tier):
     anf.reset()
     init = ci.methods["__init__"]
     sx = Expander(prog, ci.module, ci)
-    src = {ast.unparse(s.targets[0]): s.value for s in ast.walk(init) if isinstance(s, ast.Assign)}
+    src = {U(s.targets[0]): s.value for s in ast.walk(init) if isinstance(s, ast.Assign)}
     ok, why = False, ""
     try:
         sg, isg = src["self.sigma"], src["self.inv_sigma"]
-        if all(isinstance(v, ast.Call) and ast.unparse(v.func) == "diag" and len(v.args) == 1 for v in (sg, isg)):
+        if all(isinstance(v, ast.Call) and U(v.func) == "diag" and len(v.args) == 1 for v in (sg, isg)):
             a = sx.eval(sg.args[0], {"y_err": R.sym("y_err")})
             b = sx.eval(isg.args[0], {"y_err": R.sym("y_err")})
             ok = a.eq(R.sym("y_err") ** 2) and (a * b).eq(R.const(1))
@@ -170,12 +170,12 @@ def run(prog, tier):
     obs.append(struct_ob("noise-matrices", qual(ci, init), ok,
                          "S must be diag(y_err^2) and Si its elementwise inverse on the diagonal: " + why, REL, init.lineno, tier="F"))
     # slices: mean first, then covariance; labels / bounds in the same order
-    ok = (ast.unparse(src.get("self.mean_slice")) == "slice(0, self.mean.n_params)"
-          and ast.unparse(src.get("self.cov_slice")) == "slice(self.mean.n_params, self.n_hyperpars)"
-          and ast.unparse(src.get("self.n_hyperpars")) == "self.mean.n_params + self.cov.n_params"
-          and ast.unparse(src.get("self.hyperpar_labels")) == "[*self.mean.hyperpar_labels, *self.cov.hyperpar_labels]")
+    ok = (U(src.get("self.mean_slice")) == "slice(0, self.mean.n_params)"
+          and U(src.get("self.cov_slice")) == "slice(self.mean.n_params, self.n_hyperpars)"
+          and U(src.get("self.n_hyperpars")) == "self.mean.n_params + self.cov.n_params"
+          and U(src.get("self.hyperpar_labels")) == "[*self.mean.hyperpar_labels, *self.cov.hyperpar_labels]")
     oh = prog.method("GpLinearInverter", "optimize_hyperparameters")[1]
-    ok = ok and "hp_bounds = [*self.mean.bounds, *self.cov.bounds]" in ast.unparse(oh)
+    ok = ok and "hp_bounds = [*self.mean.bounds, *self.cov.bounds]" in U(oh)
     obs.append(struct_ob("slice-layout", qual(ci, init), ok,
                          "hyper-parameter slices, labels and bounds must all be mean-first then covariance", REL, init.lineno))
 
